@@ -247,8 +247,7 @@ def dependency_closure(ctx: Ctx) -> None:
     contribute VIEW obligations.  A break in a routine the property rests on is a break of the property."""
     from ..model import AnalysisError
     from ..engines.typestate import TypestateEngine, check_wrappers
-    if ctx.prop not in CLOSURE_PROPS:
-        return
+    full = ctx.prop in CLOSURE_PROPS
     roots = sorted(ctx.analysed_functions)
     reach = reachable(ctx, roots, STOP.get(ctx.prop, set()))
     have = {(o.rule, o.instance) for o in ctx.obligations}
@@ -256,7 +255,7 @@ def dependency_closure(ctx: Ctx) -> None:
     done = set()
     ran = []
     for q in sorted(reach):
-        ent = REGISTRY.get(q)
+        ent = REGISTRY.get(q) if full else None       # whole-class / whole-program properties only get the generic hazard rules
         if ent is None or id(ent[0]) in done:
             continue
         done.add(id(ent[0]))
@@ -276,6 +275,24 @@ def dependency_closure(ctx: Ctx) -> None:
                 keys.add(f.key)
                 ctx.findings.append(f)
         ctx.analysed_functions |= sub.analysed_functions
+    # generic hazards in everything reached: mutation of an iterated container, of a shared class-level table
+    from ..engines.structure import iter_mutation_rule
+    sub = Ctx(ctx.p, ctx.prop, ctx.tier)
+    iter_mutation_rule(sub, reach | set(roots))
+    from ..engines.structure import mutable_default_rule
+    from ..engines.tables import check_tables_immutable
+    mutable_default_rule(sub, reach | set(roots))
+    check_tables_immutable(sub, "IMMUT")
+    for o in sub.obligations:
+        ctx.obligations.append(o)
+    for f in sub.findings:
+        if f.key not in keys:
+            keys.add(f.key)
+            ctx.findings.append(f)
+    if not full:
+        ctx.extra["dependency_closure"] = {"roots": roots, "reached_functions": len(reach), "rule_groups_included": [], "view_wrappers": [],
+                                           "generic_hazard_rules": ["ITERMUT", "MUTDEFAULT", "IMMUT"]}
+        return
     eng = TypestateEngine(ctx.p, "Sequence")
     wrappers = sorted(q.split(".", 1)[1] for q in reach if q.startswith("Sequence.") and q.split(".", 1)[1] in eng.ci.methods
                       and not q.split(".", 1)[1].startswith("_") and not eng.ci.methods[q.split(".", 1)[1]].is_static
